@@ -62,16 +62,18 @@ Outcomes(s) ==
     [] ev.e = "destroy"               -> {BDestroy(s)}
     [] OTHER                          -> {}
 
-Explained(o) == o.r = ev.r /\ Obs(o.s) = ev.s
+\* tagged = -1: the harness did not read the tag back after this call (writable buffer without storage)
+ObsEq(x, y)  == IF y.tagged = -1 THEN x.len = y.len /\ x.rem = y.rem /\ x.pos = y.pos /\ x.tlen = y.tlen ELSE x = y
+Explained(o) == o.r = ev.r /\ ObsEq(Obs(o.s), ev.s)
 
 Which == LET O == Outcomes(buf) IN
          IF O = {} THEN "unknown_call"
          ELSE IF \E o \in O : o.r = ev.r THEN
               (LET x == Obs((CHOOSE o \in O : o.r = ev.r).s) IN
                IF x.rem # ev.s.rem \/ x.len # ev.s.len THEN "state.remaining"
-               ELSE IF x.tagged # ev.s.tagged \/ x.tlen # ev.s.tlen \/ x.tbytes # ev.s.tbytes THEN "state.tag"
+               ELSE IF ev.s.tagged # -1 /\ (x.tagged # ev.s.tagged \/ x.tlen # ev.s.tlen \/ x.tbytes # ev.s.tbytes) THEN "state.tag"
                ELSE "state.position")
-         ELSE IF \E o \in O : Obs(o.s) = ev.s THEN "result" ELSE "result+state"
+         ELSE IF \E o \in O : ObsEq(Obs(o.s), ev.s) THEN "result" ELSE "result+state"
 Expected == LET O == Outcomes(buf) IN IF O = {} THEN [none |-> TRUE] ELSE
             LET o == CHOOSE x \in O : TRUE IN [r |-> o.r, s |-> Obs(o.s), alternatives |-> Cardinality(O)]
 Cond == (IF buf.const THEN "const" ELSE "writable") \o (IF Tagged(buf) THEN ".tagged" ELSE ".untagged")
@@ -83,7 +85,8 @@ Resync == LET isc == IF ev.e = "create_const" THEN ev.r.rc = OK /\ A1 # <<>> ELS
                      ELSE ev.s.tbytes
               toff == IF isc THEN ev.s.pos ELSE Len(ev.s.tbytes)
           IN buf' = [data |-> pre \o ev.s.rem, off |-> toff,
-                     tag |-> IF ev.s.tagged = 1 THEN toff - ev.s.tlen ELSE NoTag,
+                     tag |-> IF ev.s.tagged = 1 THEN toff - ev.s.tlen
+                             ELSE IF ev.s.tagged = -1 /\ Tagged(buf) /\ ev.e \notin {"create", "create_const"} THEN 0 ELSE NoTag,
                      const |-> isc,
                      alloc |-> IF ev.e \in {"create", "create_const"} THEN FALSE ELSE (buf.alloc \/ ev.s.len > 0)]
 
